@@ -181,6 +181,10 @@ Definition h_insert (name v : bytes) (h : headers) : headers := h_remove name h 
 Definition h_or_insert (name v : bytes) (h : headers) : headers :=
   match h_get name h with Some _ => h | None => h ++ [(name, v)] end.
 
+(** [HeaderMap::get_all]: every value of the name, in order *)
+Definition h_all (name : bytes) (h : headers) : list bytes :=
+  map snd (filter (fun e => beq (fst e) name) h).
+
 Definition H_CSP : bytes := Eval vm_compute in B "content-security-policy".
 Definition H_NONCE : bytes := Eval vm_compute in B "csp-nonce".
 Definition H_REFERRER : bytes := Eval vm_compute in B "referrer-policy".
@@ -336,11 +340,132 @@ Fixpoint page_history (rewrite : bytes -> bytes -> outcome bytes) (rng : nat -> 
       Ok (fst r2, snd r :: snd r2)))
   end.
 
+(** the value of the k-th draw of the generator in the correspondence run: 24 symbolic
+    "bytes" 1000k .. 1000k+23 (outside the byte range) *)
+Definition sym_nonce (k : nat) : bytes := map (fun i => N.of_nat (1000 * k + i)) (seq 0 24).
+
+(** ---- Specification of the Package chain: the headers the property demands ----
+    [hist] is the history of [add_mut] calls that built the CSP rule set; the rule is chosen by the
+    independent resolver [resolve] of Model/RuleSet.v, not by the vector. *)
+Definition spec_csp (hist : list (bytes * csp_rule)) (path : bytes) (h : headers) : list bytes :=
+  match resolve hist path with
+  | Some rule =>
+      match to_header_nonce rule (h_get H_NONCE h) with
+      | Some v => [v]
+      | None => h_all H_CSP h
+      end
+  | None => h_all H_CSP h
+  end.
+Definition spec_referrer (h : headers) : list bytes :=
+  match h_all H_REFERRER h with [] => [NO_REFERRER] | l => l end.
+Definition spec_security (hist : list (bytes * csp_rule)) (server path : bytes) (h : headers) : headers :=
+  map (pair H_CSP) (spec_csp hist path h) ++ map (pair H_REFERRER) (spec_referrer h) ++ [(H_SERVER, server)].
+
+(** the reply the property demands for a nonce page when the generator drew [n] *)
+Definition nonce_reply (n : bytes) (handler : page) : page :=
+  {| pg_body := nonce_spec n (pg_body handler); pg_headers := h_insert H_NONCE n (pg_headers handler); pg_pref := SNone |}.
+
+(** a policy is a list of directives separated by "; ": what precedes a directive is empty or ends
+    with the separator, what follows is empty or starts with it *)
+Definition sep_tail (post : bytes) : Prop := post = [] \/ exists p, post = SEMI_SP ++ p.
+Definition sep_head (pre : bytes) : Prop := pre = [] \/ exists p, pre = p ++ SEMI_SP.
+
+(** ---- the send path on a small fixture ([handle_connection] -> [handle_cache] -> [SendKind::send]) ----
+    A host with response cache, no file system, [Extensions::new()] + CSP rule set + server header and
+    Prepare handlers for single paths.  What is modelled is which response *head* reaches the
+    Package chain for hits, misses, error statuses, 304 and ranges; bodies of Kvarn's error pages
+    are a placeholder (only their being non-empty and shorter than 2000 bytes matters). *)
+Record chandler := mkCH { ch_path : bytes; ch_status : N; ch_headers : headers;
+                          ch_cache : bool; ch_nonce : bool; ch_body : bytes }.
+(** method: 0 GET, 1 HEAD, 2 POST; range: 0 none, 1 [bytes=0-3], 2 [bytes=2000-2999];
+    ims: [if-modified-since] with a date in the far future *)
+Record creq := mkCR { cr_method : N; cr_path : bytes; cr_range : N; cr_ims : bool }.
+Record creply := mkCRep { rp_status : N; rp_headers : headers; rp_body : bytes }.
+Record cstate := mkCS { cs_cache : list (bytes * creply); cs_nonces : nat }.
+
+Definition c_slash : N := 47.
+Definition c_dot : N := 46.
+Definition INDEX_HTML : bytes := Eval vm_compute in B "index.html".
+Definition HTML : bytes := Eval vm_compute in B "html".
+Definition DOT_SLASH : bytes := Eval vm_compute in B "./".
+Definition ERR_BODY : bytes := Eval vm_compute in B "ERRPAGE".
+(** the Prime extension of [with_uri_redirect] (it rewrites [request.uri()]) *)
+Definition prime_path (p : bytes) : bytes :=
+  match rev p with
+  | c :: _ => if N.eqb c c_slash then p ++ INDEX_HTML else if N.eqb c c_dot then p ++ HTML else p
+  | [] => p
+  end.
+(** [sanitize_request] on the paths of the fixture: refused iff the path contains [./] *)
+Definition unsafe_path (p : bytes) : bool := contains_sub DOT_SLASH p.
+(** [host::Options::status_code_cache_filter] (default): statuses that are not cached *)
+Definition status_not_cached (s : N) : bool :=
+  ((400 <=? s) && (s <=? 403)) || ((405 <=? s) && (s <=? 409)) || ((411 <=? s) && (s <=? 499))
+  || ((100 <=? s) && (s <=? 199)) || (s =? 304).
+Definition c_lookup (p : bytes) (c : list (bytes * creply)) : option creply :=
+  option_map snd (find (fun e => beq (fst e) p) c).
+
+(** a cache miss: the Prepare handler of the path (or 404), then the Present extensions *)
+Definition conn_compute (rewrite : bytes -> bytes -> outcome bytes) (hs : list chandler)
+    (p : bytes) (unsafe : bool) (k : nat) : outcome (creply * bool * nat) :=
+  if unsafe then Ok (mkCRep 400 [] ERR_BODY, false, k) else
+  match find (fun h => beq (ch_path h) p) hs with
+  | None => Ok (mkCRep 404 [] ERR_BODY, true, k)   (* [handle_request] wraps its 404 in [FatResponse::cache] *)
+  | Some h =>
+      if ch_nonce h then
+        obind (rewrite (sym_nonce (S k)) (ch_body h)) (fun b =>
+        Ok (mkCRep (ch_status h) (h_insert H_NONCE (sym_nonce (S k)) (ch_headers h)) b, false, S k))
+      else Ok (mkCRep (ch_status h) (ch_headers h) (ch_body h), ch_cache h, k)
+  end.
+
+(** [apply_to_response] in [SendKind::send] for the two ranges of the fixture *)
+Definition conn_range (range : N) (rep : creply) : creply :=
+  match range with
+  | 0 => rep
+  | _ =>
+      let start := if range =? 1 then 0%nat else 2000%nat in
+      let len := if range =? 1 then 4%nat else 1000%nat in
+      if Nat.leb (length (rp_body rep)) start then mkCRep 416 [] ERR_BODY
+      else mkCRep (if rp_status rep =? 200 then 206 else rp_status rep) (rp_headers rep)
+                  (firstn len (skipn start (rp_body rep)))
+  end.
+
+(** one request: the new state, the response that reaches the Package chain, the path the
+    Package extensions see *)
+Definition conn_step (rewrite : bytes -> bytes -> outcome bytes) (hs : list chandler)
+    (st : cstate) (r : creq) : outcome (cstate * creply * bytes) :=
+  let p := prime_path (cr_path r) in
+  let unsafe := unsafe_path (cr_path r) in
+  let goh := (cr_method r =? 0) || (cr_method r =? 1) in
+  obind
+    (match (if negb unsafe && goh then c_lookup p (cs_cache st) else None) with
+     | Some stored => Ok (st, if cr_ims r then mkCRep 304 [] [] else stored)
+     | None =>
+         obind (conn_compute rewrite hs p unsafe (cs_nonces st)) (fun res =>
+         let rep := fst (fst res) in
+         let store := snd (fst res) && negb (status_not_cached (rp_status rep)) && goh in
+         Ok (mkCS (if store then (p, rep) :: cs_cache st else cs_cache st) (snd res), rep))
+     end)
+    (fun sr => Ok (fst sr, if unsafe then snd sr else conn_range (cr_range r) (snd sr), p)).
+
+(** what the client sees: status, the security headers after the Package chain [chain], and
+    the body of a 200/206 answer to a GET *)
+Definition conn_wire (chain : bytes -> headers -> headers) (m : N) (rep : creply) (p : bytes) : creply :=
+  mkCRep (rp_status rep) (chain p (rp_headers rep))
+         (if (m =? 0) && ((rp_status rep =? 200) || (rp_status rep =? 206)) then rp_body rep else []).
+Fixpoint conn_run (rewrite : bytes -> bytes -> outcome bytes) (chain : bytes -> headers -> headers)
+    (hs : list chandler) (st : cstate) (rs : list creq) : outcome (list creply) :=
+  match rs with
+  | [] => Ok []
+  | r :: rest =>
+      obind (conn_step rewrite hs st r) (fun res =>
+      obind (conn_run rewrite chain hs (fst (fst res)) rest) (fun out =>
+      Ok (conn_wire chain (cr_method r) (snd (fst res)) (snd res) :: out)))
+  end.
+
 (** ---- xval interface ---- *)
 (** The generator's values are not known in advance: the model is run on symbolic nonces
     (24 "bytes" 1000k .. 1000k+23 for the k-th computation, outside the byte range) and
     prints byte strings as templates: (L (B lit) (L (N k)) (B lit) ...). *)
-Definition sym_nonce (k : nat) : bytes := map (fun i => N.of_nat (1000 * k + i)) (seq 0 24).
 Fixpoint tb_go (skip : nat) (s lit : bytes) : list xval :=
   match s with
   | [] => [XB (rev lit)]
@@ -446,19 +571,80 @@ Definition run_nonce_page (rewrite : bytes -> bytes -> outcome bytes)
   | _ => bad_input
   end.
 
-(** nonce.spec — the specification of the body rewriting on the same input (oracle run):
-    the expected body of the first reply as a template, or (L) when the page has no [!> nonce] line *)
+(** csp.package_spec / nonce.spec output: the values of the four headers
+    (L (L csp values) (L referrer-policy values) (L server values) (L csp-nonce values)) *)
+Definition x_security (enc : bytes -> xval) (h : headers) : xval :=
+  XL (map (fun n => XL (map enc (h_all n h))) [H_CSP; H_REFERRER; H_SERVER; H_NONCE]).
+
+(** nonce.spec — the specification on the input of nonce.page (oracle run):
+    (L body headers): the demanded body of the first reply as a template ((L) when the page has
+    no [!> nonce] line) and the demanded security headers after the Package chain *)
 Definition run_nonce_spec (x : xval) : xval :=
   match x with
-  | XL [XB body; XN line; _; _; _] =>
-      if N.eqb line 1 then XL [x_tb (nonce_spec (sym_nonce 1) body)] else XL []
+  | XL [XB body; XN line; _; adds; XB server] =>
+      match d_list d_csp_add adds with
+      | Some hist =>
+          let h := if N.eqb line 1 then [(H_NONCE, sym_nonce 1)] else [] in
+          XL [ if N.eqb line 1 then XL [x_tb (nonce_spec (sym_nonce 1) body)] else XL [];
+               x_security x_tb (spec_security hist server (B "/p") h) ]
+      | None => bad_input
+      end
   | _ => bad_input
   end.
+
+(** csp.package_spec — the demanded values of the four headers, on the input of csp.package *)
+Definition run_csp_package_spec (x : xval) : xval :=
+  match x with
+  | XL [adds; XB path; hs; XB server] =>
+      match d_list d_csp_add adds, d_list d_header hs with
+      | Some hist, Some h => x_security XB (spec_security hist server path h)
+      | _, _ => bad_input
+      end
+  | _ => bad_input
+  end.
+
+(** c14.conn — input: (L adds (B server) handlers requests)
+    handler = (L (B path) (N status) headers (N cache) (N nonce) (B body)); request = (L (N method) (B path) (N range) (N ims))
+    output: Ok (L (L (N status) security-headers body) ...), values as templates *)
+Definition d_chandler (x : xval) : option chandler :=
+  match x with
+  | XL [XB p; XN st; hs; XN c; XN n; XB b] =>
+      match d_list d_header hs with
+      | Some h => Some (mkCH p st h (N.eqb c 1) (N.eqb n 1) b)
+      | None => None
+      end
+  | _ => None
+  end.
+Definition d_creq (x : xval) : option creq :=
+  match x with
+  | XL [XN m; XB p; XN r; XN i] => Some (mkCR m p r (N.eqb i 1))
+  | _ => None
+  end.
+Definition run_conn (rewrite : bytes -> bytes -> outcome bytes)
+    (chain : list (bytes * csp_rule) -> bytes -> bytes -> headers -> headers) (x : xval) : xval :=
+  match x with
+  | XL [adds; XB server; hs; rs] =>
+      match d_list d_csp_add adds, d_list d_chandler hs, d_list d_creq rs with
+      | Some hist, Some hs, Some rs =>
+          x_outcome (fun out => XL (map (fun r => XL [XN (rp_status r); x_headers x_tb (rp_headers r); x_tb (rp_body r)]) out))
+            (conn_run rewrite (chain hist server) hs (mkCS [] O) rs)
+      | _, _, _ => bad_input
+      end
+  | _ => bad_input
+  end.
+Definition chain_model (hist : list (bytes * csp_rule)) (server path : bytes) (h : headers) : headers :=
+  only_security_headers (package_chain (rs_build rs_add hist) server path h).
+Definition chain_model_v0 (hist : list (bytes * csp_rule)) (server path : bytes) (h : headers) : headers :=
+  only_security_headers (package_chain_v0 (rs_build rs_add_v0 hist) server path h).
 
 Definition nonce_table : list (bytes * (xval -> xval)) :=
   [ (B "nonce.page", run_nonce_page nonce_rewrite rs_add package_chain);
     (B "nonce.spec", run_nonce_spec);
     (B "csp.package", run_csp_package rs_add package_chain);
+    (B "csp.package_spec", run_csp_package_spec);
+    (B "c14.conn", run_conn nonce_rewrite chain_model);
+    (B "c14.conn_spec", run_conn (fun n b => Ok (nonce_spec n b)) spec_security);
+    (B "c14.conn_v0", run_conn nonce_rewrite_v0 chain_model_v0);
     (* the code as it was before the fix commits; model only (refutation witnesses, history) *)
     (B "nonce.page_v0", run_nonce_page nonce_rewrite_v0 rs_add_v0 package_chain_v0);
     (B "csp.package_v0", run_csp_package rs_add_v0 package_chain_v0) ].
